@@ -77,6 +77,34 @@ T = {
  "C18-r2-2": ("C18", "value length reused from the old slot when name and value start at the same addresses", "same bytes at the same address parsed earlier under a config that ends the value elsewhere"),
  "C20-r2-1": ("C20", "each chunk-extension byte searches ahead for the next CR", "Partial input `1;` + N non-CR bytes: quadratic through as_ref, no cursor movement"),
  "C20-r2-2": ("C20", "header-name scanner falls through to a tail matcher that always walks its whole argument", "many small headers in one buffer: quadratic"),
+ "C01-r3-1": ("C01", "empty-value exit uses slice_skip(2) also on the bare-LF path", "header with empty / blank value on a line ended by bare LF: underflow (debug assertion; release: value of length 2^64-1)"),
+ "C01-r3-2": ("C01", "parse_code reads the first code byte unchecked", "response buffer ending exactly after `HTTP/1.1 ` with the multi-space option off: reads buf[len]"),
+ "C02-r3-1": ("C02", "fail-fast TooManyHeaders when the array is full and the next byte could start a name, end of input included", "capacity equal to the header count, buffer cut right after the last header line: Err(TooManyHeaders), later Complete"),
+ "C02-r3-2": ("C02", "skip_empty_lines looks one byte ahead for the LF", "buffer ending between the CR and LF of a leading empty line: Err(NewLine), later Complete"),
+ "C07-r3-1": ("C07", "SP after the version becomes optional under the multi-space option", "`HTTP/1.1200 OK` with allow_multiple_spaces_in_response_status_delimiters"),
+ "C07-r3-2": ("C07", "merged CR/LF arms after the code treat end of input as a wrong byte", "status line without reason, buffer ending between CR and LF: Err(Status) instead of Partial"),
+ "C08-r3-1": ("C08", "hand-written tchar bitmap in the SWAR name scanner lacks `|`", "`|` at name offset >= 1 inside a full 8-byte block"),
+ "C08-r3-2": ("C08", "newline! no longer commits on its bare-LF arm", "Request with a request line ended by bare LF and at least one header: first name includes `HTTP/1.1\\n`"),
+ "C09-r3-1": ("C09", "merged digit arms with an exclusive upper-case range", "upper-case `F`: valued 22"),
+ "C09-r3-2": ("C09", "is_ascii_whitespace in the whitespace arm", "LF or FF after a genuine SP/HTAB and before `;`"),
+ "C10-r3-1": ("C10", "lone CR inside the ignored-line skipper always reported as HeaderName", "ignore-invalid; line first wrong in its value; later CR without LF"),
+ "C10-r3-2": ("C10", "short-input version path reports NewLine for CR/LF inside the literal", "CR or LF as the first wrong byte of the version with fewer than 8 bytes left"),
+ "C11-r3-1": ("C11", "whitespace after a header name only rejected at the colon", "buffer ending inside the whitespace run after a name (option off): Partial"),
+ "C11-r3-2": ("C11", "method parsing returns Partial until four bytes are buffered", "invalid byte within the first 1-3 bytes of the request line"),
+ "C12-r3-1": ("C12", "SWAR target check returns the first below-range lane before consulting the DEL mask", "DEL followed by a byte below 0x21 inside one 8-byte word"),
+ "C12-r3-2": ("C12", "AVX2 DEL splat with 16-bit lanes", "DEL at an odd lane of a 32-byte block of the target"),
+ "C13-r3-1": ("C13", "build.rs scans the target-feature list with one shared iterator", "`+avx2` builds silently select the compile-time SSE4.2 backend"),
+ "C13-r3-2": ("C13", "minor version digit computed by u8 subtraction in the 8-byte fast path", "`HTTP/1.` followed by a byte below `0`: panic in debug, Err(Version) in release"),
+ "C15-r3-1": ("C15", "trailing trim uses char::is_whitespace when folding is on", "folding option; value ending in 0xA0 or 0x85"),
+ "C15-r3-2": ("C15", "precedence slip lets ignore_invalid_headers_in_requests reach responses", "request-only ignore flag on, response with an ignorable invalid line"),
+ "C17-r3-1": ("C17", "slot iterator bounded by bytes.len()/4+1", ">= 6 three-byte header lines (`a:` + LF) with capacity >= 6: TooManyHeaders"),
+ "C17-r3-2": ("C17", "response uninit entry takes `headers` and only puts it back after the header block", "non-empty headers before the call and a Partial/Err in the status line"),
+ "C18-r3-1": ("C18", "method reused when the input starts with it and the next byte is not a token byte", "earlier parse with method M, probe `M/x ...`"),
+ "C18-r3-2": ("C18", "request line prefix skipped when method/path point into the current buffer", "same memory parsed earlier under another config or as an overlapping sub-slice"),
+ "C19-r3-1": ("C19", "runtime detection reads an environment variable (owned OsString)", "variable present in the environment and the first dispatched scanner call of the process"),
+ "C19-r3-2": ("C19", "std::arch path behind cfg(target_feature = bmi1) in swar.rs", "no_std build with a target-feature set containing bmi1 (e.g. target-cpu x86-64-v3)"),
+ "C20-r3-1": ("C20", "target re-validated from its start at every multi-byte character", "long target with many multi-byte characters"),
+ "C20-r3-2": ("C20", "reason look-ahead repeated at every obs-text byte when the line is not terminated", "unterminated or NUL-ended status line with many obs-text bytes"),
 }
 
 results = {}
